@@ -108,6 +108,28 @@ def sweep_cases(rnd, full):
                 out.append(("blanks", bt % (ch * (nb // len(ch)))))
         out.append(("blanks", "mov rax, rbz ;" + "c" * nb))
         out.append(("blanks", "nop\n" + " " * nb + "\nmov rax, rbz" + "\t" * nb + "\nret"))
+    # MANY parts inside ONE operand (the line still within the length limit): sums of 2..24 register terms, of 2..30 numbers, chains
+    # of '*', runs of signs, repeated size / jump keywords, many brackets - whatever the tokenizer keeps per term in fixed-size arrays
+    regs_ = ["rax", "rbx", "rcx", "rdx", "rsi", "rdi", "r8", "r9", "r10", "r11", "r12", "r13", "r14", "r15"]
+    for n in (2, 3, 4, 5, 6, 8, 12, 16, 20, 24):
+        out.append(("depth", "mov rax, [" + "+".join(regs_[i % 14] for i in range(n)) + "]"))
+        out.append(("depth", "lea rax, [" + "+".join(regs_[i % 14] + "*2" for i in range(min(n, 16))) + "]"))
+        out.append(("depth", "mov rax, [rbx" + "+1" * n + "]"))
+        out.append(("depth", "mov rax, [rbx" + "-0x10" * min(n, 18) + "]"))
+        out.append(("depth", "mov rax, [rbx" + "*2" * n + "]"))
+        out.append(("depth", "mov rax, [" + "2*" * n + "rbx]"))
+        out.append(("depth", "add rax, " + "-" * n + "5"))
+        out.append(("depth", "add rax, " + "+" * n + "5"))
+        out.append(("depth", "mov " + "byte " * min(n, 16) + "[rax], 1"))
+        out.append(("depth", "mov " + "qword dword " * min(n, 7) + "[rax], 1"))
+        out.append(("depth", "jmp " + "short " * min(n, 14) + "4"))
+        out.append(("depth", "jmp " + "far " * min(n, 20) + "[rax]"))
+        out.append(("depth", "mov rax, " + "[" * n + "rbx" + "]" * n))
+        out.append(("depth", "mov rax, [rbx]" + "]" * n))
+        out.append(("depth", "mov rax" + ", rbx" * n))
+        out.append(("depth", "vperm2i128 ymm1, ymm2, [rax" + "+rbx*2" * min(n, 12) + "], 1"))
+        out.append(("depth", "mov rax, 0x" + "0x" * n + "1"))
+        out.append(("depth", "mov rax, [rbx+rcx*" + "8" * n + "]"))
     return out
 
 
@@ -389,7 +411,7 @@ def run(tier):
     v.cov["rule"] = ("(a) libFuzzer (clang, ASan+UBSan, reports fatal) on a structure-aware target: 8 control bytes choose option values (incl. out-of-range), entry point (str, str+fitting, counting, file, file-counting, "
                      "two calls), chunk size, caller/library buffer, buffer length and start offset, the rest is the NUL-terminated text; dictionary of all mnemonics/registers/keywords/punctuation, seeds = the C01-C05 "
                      "corpora; %d jobs x %d runs; (b) directed sweeps: filtered line lengths 90-110 x 12 line shapes x 13 last-token kinds, 0-8 operands, every keyword pair, every byte value at every position of 6 templates, "
-                     "1 MiB lines, 10^5-line programs (one sweep case in seven with debug printing on; the fuzz target switches it on for a quarter of its inputs), valid and rejected lines with runs of 1000 .. 2^20 blanks / tabs at 17 positions (short after filtering, long as written), on caller and library buffers in plain/fitting/counting mode; the longest encodings the library emits (ALU/test/mov x 7 memory shapes x size keywords x immediates of 1-8 bytes, incl. ones the destination cannot hold: up to 17 bytes) x chunk sizes around their length x fill levels of the chunk, fitting and counting; programs whose last instructions sweep through the growth thresholds of the library buffer (6000, 12000, ...) under chunk sizes that do / do not divide 6000, with every growth forced to move the mapping; write positions up to INT_MAX on library buffers (grow that far or fail cleanly); (c) seeds + fuzzer corpus + sweeps replayed under MemorySanitizer. Oracle: no sanitizer report, no signal, "
+                     "1 MiB lines, 10^5-line programs (one sweep case in seven with debug printing on; the fuzz target switches it on for a quarter of its inputs), operands made of up to 24 register terms / 30 numbers / chains of '*', signs, keywords and brackets, valid and rejected lines with runs of 1000 .. 2^20 blanks / tabs at 17 positions (short after filtering, long as written), on caller and library buffers in plain/fitting/counting mode; the longest encodings the library emits (ALU/test/mov x 7 memory shapes x size keywords x immediates of 1-8 bytes, incl. ones the destination cannot hold: up to 17 bytes) x chunk sizes around their length x fill levels of the chunk, fitting and counting; programs whose last instructions sweep through the growth thresholds of the library buffer (6000, 12000, ...) under chunk sizes that do / do not divide 6000, with every growth forced to move the mapping; write positions up to INT_MAX on library buffers (grow that far or fail cleanly); (c) seeds + fuzzer corpus + sweeps replayed under MemorySanitizer. Oracle: no sanitizer report, no signal, "
                      "no hang (10 s watchdog), return value in {0,1}. distinct_nontrivial = distinct directed cases + coverage edges reached by the fuzzer" % (njobs, per))
     v.cov["exhaustive"] = False
     v.cov.update(stats)
